@@ -72,10 +72,10 @@ class Wildcard(Base):
     def line(self, line: str) -> None:
         line = h.init_line(line)
         prefix_o, wildmask_o = self._create_prefix(line)
+        ncwb, prefixlen = self._create_ncwb(wildmask_o)  # raises before self is changed
         self._prefix = prefix_o
         self._wildmask = wildmask_o
         self.ipnet = self._create_ipnet()
-        ncwb, prefixlen = self._create_ncwb()
         self._ncwb = ncwb
         self._prefixlen = prefixlen
         self._ipnets = []
@@ -229,17 +229,17 @@ class Wildcard(Base):
             ipnet = None
         return ipnet
 
-    def _create_ncwb(self) -> TLintInt:
+    def _create_ncwb(self, wildmask: IPv4Address) -> TLintInt:
         """Init non-contiguous wildcard bits and prefix length.
 
         :return: List of non-contiguous wildcard bits, prefixlen.
         :example:
             _init_prefix("10.0.0.0 0.0.0.3") -> IPv4Address("10.0.0.0"), IPv4Address("0.0.0.3")
         """
-        wild_bits: LInt = [int(b) for b in format(int(self._wildmask), f"0{PREFIX_LEN}b")]
+        wild_bits: LInt = [int(b) for b in format(int(wildmask), f"0{PREFIX_LEN}b")]
         wb_idxs: LInt = [i for i, e in enumerate(reversed(wild_bits)) if e == 1]
         prefixlen_idx: int = self._prefixlen_idx(wb_idxs)
-        ncwb: LInt = self._ncw_bits(wb_idxs, prefixlen_idx)
+        ncwb: LInt = self._ncw_bits(wb_idxs, prefixlen_idx, wildmask)
         prefixlen: int = PREFIX_LEN - prefixlen_idx
         return ncwb, prefixlen
 
@@ -262,7 +262,7 @@ class Wildcard(Base):
         prefix_o = IPv4Address(prefix_i)
         return prefix_o, wildmask_o
 
-    def _ncw_bits(self, wb_idxs: LInt, prefixlen_idx: int) -> LInt:
+    def _ncw_bits(self, wb_idxs: LInt, prefixlen_idx: int, wildmask: IPv4Address) -> LInt:
         """Return non-contiguous wildcard mask bits.
 
         :param wb_idxs: Wildcard mask bit indexes.
@@ -274,7 +274,7 @@ class Wildcard(Base):
 
         count = len(ncwb)
         if count > self.max_ncwb:
-            wild_mask = str(self._wildmask)
+            wild_mask = str(wildmask)
             max_ncwb = self.max_ncwb
             msg = f"non-contiguous wildcard bits {count=} increases {max_ncwb=} in {wild_mask=}"
             raise NetmaskValueError(msg)
